@@ -318,6 +318,8 @@ def assign_iterable(lhs, rhs, other, ctx):
         lhs[rhs] = other
         return vy_sum(lhs, ctx=ctx)
     else:
+        # Assign into a copy: the argument may still be referenced elsewhere
+        lhs = lhs[::] if isinstance(lhs, list) else deep_copy(lhs)
         lhs[rhs] = other
         return lhs
 
